@@ -49,7 +49,9 @@ def nucleationBarrier(volumeDrivingForce, precipitate : PrecipitateParameters, a
     else:
         RcritProposal = precipitate.nucleation.Rcrit(volumeDrivingForce[indices])
         Rcrit[indices] = np.amax([RcritProposal, Rmin[indices]], axis=0)
-        Gcrit[indices] = precipitate.nucleation.Gcrit(volumeDrivingForce[indices], Rcrit[indices])
+        # volumeFactor*gamma*Rcrit^2 equals nucleation.Gcrit at the critical radius (areaFactor*gamma - gbRemoval*gbEnergy = 3*volumeFactor*gamma)
+        # and, like the bulk expression above, stays a non-negative barrier when Rcrit is raised to Rmin
+        Gcrit[indices] = precipitate.nucleation.volumeFactor * precipitate.gamma * Rcrit[indices]**2
 
     return np.squeeze(Rcrit), np.squeeze(Gcrit)
 
